@@ -697,14 +697,19 @@ impl<S: WebSocket, T: TimestampProvider> Task<S, T> {
         // At the client side, we use the associated oneshot channel to send the new stream
         trace!("sending stream to user");
         let (stream, stream_data) = self.new_stream_shared(flow_id, peer_rwnd, Bytes::new(), 0);
-        self.flows
+        let requester = self
+            .flows
             .write()
             .get_mut(&flow_id)
             .ok_or(Error::ConnAckGone)?
             .establish(stream_data)
-            .ok_or(Error::ConnAckGone)?
-            .send(Some(stream))
-            .or(Err(Error::SendStreamToClient))?;
+            .ok_or(Error::ConnAckGone)?;
+        if requester.send(Some(stream)).is_err() {
+            // The requester gave up waiting (its future was dropped, e.g. by a timeout).
+            // The stream that comes back is dropped right here, which aborts this flow like
+            // any other dropped stream (`Reset`, slot freed). The other flows are not affected.
+            debug!("requester of flow {flow_id:08x} is gone, aborting the new stream");
+        }
         Ok(())
     }
 
